@@ -153,7 +153,24 @@ impl Family for Cycles {
                 e019.dedup();
                 json!({"ev": "alias", "n": n, "target": case["target"], "e019": e019, "accepted": accepted, "codes": codes})
             }
-            _ => json!({"ev": "inherit", "n": n, "edges": pairs, "accepted": accepted, "codes": codes}),
+            _ => {
+                // every E037: the interface it is attached to (one interface per row, J{i} on row i + 1) and the chain of
+                // base interfaces it reports ("...: M::J1 -> M::J2 -> M::J1")
+                let mut e037 = Vec::new();
+                for d in errors.iter().filter(|d| d.code() == "E037") {
+                    let root = d.span().map(|s| (s.start.row as u64).saturating_sub(1)).unwrap_or(0);
+                    let msg = d.message();
+                    let chain: Vec<u64> = msg
+                        .rsplit(": ")
+                        .next()
+                        .unwrap_or("")
+                        .split(" -> ")
+                        .map(|x| x.trim().strip_prefix("M::J").and_then(|k| k.parse::<u64>().ok()).unwrap_or(0))
+                        .collect();
+                    e037.push(json!({"root": root, "chain": chain}));
+                }
+                json!({"ev": "inherit", "n": n, "edges": pairs, "accepted": accepted, "codes": codes, "e037": e037})
+            }
         };
         emit_event("cycles", &ev);
         let nontrivial = !pairs.is_empty() || family == "alias";
